@@ -9,10 +9,10 @@
      HelloRetryRequest re-added) and _serverGetClientHello (reset, message_hash; the HRR itself
      is then fed by _sendMsgs): `[MHash (hash .. [MCH ch1]); MSH hrr]` on both sides.
      update_binders / verify_binder: `pre ++ [MCH (ch_truncate c)]` in binders_for / binder_ok.
-   * guard_sites.  sentinel_check x2 = sentinel_hit; sentinel_write x2 = sentinel_for (only in
-     _handshakeServerAsyncHelper: the resumed ServerHello built in _serverGetClientHello uses
-     getRandomBytes(32) directly -- see server_hello_sites -- which is why run12r writes no
-     sentinel); scsv_check = scsv_hit; hrr_second_hello_compare = hrr_second_ok;
+   * guard_sites.  sentinel_check x2 = sentinel_hit; sentinel_write x4 = sentinel_for: two in
+     _handshakeServerAsyncHelper (full handshake, run12) and, since /repo 9a5e0f9, two in
+     _serverGetClientHello for the resumed ServerHello (run12r); server_hello_sites shows that both
+     TLS <= 1.2 ServerHello constructions take `random`, i.e. the value the writes act on; scsv_check = scsv_hit; hrr_second_hello_compare = hrr_second_ok;
      finished_compare = the zl_eqb tests on received Finished values (full equality);
      binder_compare = binder_ok.
    * guard_positions.  sentinel checks directly after _clientGetServerHello and before any key
@@ -46,6 +46,8 @@ Definition expected_guard_sites : list (string * string * string * string * stri
   ("tlslite/tlsconnection.py", "_handshakeServerAsyncHelper", "sentinel_write", "random[-8:] = TLS_1_1_DOWNGRADE_SENTINEL", "if version < (3, 3) and settings.maxVersion >= (3, 3)", "");
   ("tlslite/tlsconnection.py", "_serverTLS13Handshake", "finished_compare", "cl_finished.verify_data != cl_verify_data", "alert AlertDescription.decrypt_error", "");
   ("tlslite/tlsconnection.py", "_serverGetClientHello", "scsv_check", "version < settings.maxVersion and CipherSuite.TLS_FALLBACK_SCSV in clientHello.cipher_suites", "alert AlertDescription.inappropriate_fallback", "");
+  ("tlslite/tlsconnection.py", "_serverGetClientHello", "sentinel_write", "random[-8:] = TLS_1_2_DOWNGRADE_SENTINEL", "if clientHello.session_id and sessionCache or (ticket_ext and ticket_ext.ticket) && if session && if version == (3, 3) and settings.maxVersion > (3, 3)", "");
+  ("tlslite/tlsconnection.py", "_serverGetClientHello", "sentinel_write", "random[-8:] = TLS_1_1_DOWNGRADE_SENTINEL", "if clientHello.session_id and sessionCache or (ticket_ext and ticket_ext.ticket) && if session && if version < (3, 3) and settings.maxVersion >= (3, 3)", "");
   ("tlslite/tlsconnection.py", "_serverGetClientHello", "hrr_second_hello_compare", "clientHello1 != clientHello", "alert AlertDescription.illegal_parameter", "if version > (3, 3) && if hrr_ext");
   ("tlslite/tlsconnection.py", "_getFinished", "finished_compare", "finished.verify_data != verifyData", "alert AlertDescription.decrypt_error", "");
   ("tlslite/handshakehelpers.py", "verify_binder", "binder_compare", "not ct_compare_digest(binder, ext.binders[position])", "raise TLSIllegalParameterException", "")
@@ -54,12 +56,12 @@ Definition expected_guard_sites : list (string * string * string * string * stri
 Definition expected_server_hello_sites : list (string * string * string * string * string) := [
   ("tlslite/tlsconnection.py", "_handshakeServerAsyncHelper", "serverHello", "self.version", "random");
   ("tlslite/tlsconnection.py", "_serverTLS13Handshake", "serverHello", "(3, 3)", "getRandomBytes(32)");
-  ("tlslite/tlsconnection.py", "_serverGetClientHello", "serverHello", "version", "getRandomBytes(32)");
+  ("tlslite/tlsconnection.py", "_serverGetClientHello", "serverHello", "version", "random");
   ("tlslite/tlsconnection.py", "_serverGetClientHello", "hrr", "(3, 3)", "TLS_1_3_HRR")
 ].
 
 Definition expected_guard_positions : list (string * string * string) := [
   ("tlslite/tlsconnection.py", "_handshakeClientAsyncHelper", "call:_clientGetServerHello < sentinel_check < sentinel_check < call:_clientTLS13Handshake < call:_clientResume < call:_clientKeyExchange");
   ("tlslite/tlsconnection.py", "_handshakeServerAsyncHelper", "call:_serverTLS13Handshake < sentinel_write < sentinel_write < server_hello_create");
-  ("tlslite/tlsconnection.py", "_serverGetClientHello", "version_assigned < version_assigned < version_assigned < scsv_check < server_hello_create < call:_server_select_certificate < server_hello_create < hrr_second_hello_compare")
+  ("tlslite/tlsconnection.py", "_serverGetClientHello", "version_assigned < version_assigned < version_assigned < scsv_check < sentinel_write < sentinel_write < server_hello_create < call:_server_select_certificate < server_hello_create < hrr_second_hello_compare")
 ].
